@@ -52,10 +52,11 @@ class RenderScenario(StubScenario):
     """render_annotation is answered by `anno_text` (default: the annotation token's own text)."""
 
     def __init__(self, repo: Repo, func: str, anno_text: Optional[Callable[[V], str]] = None, inline_annotation: bool = False) -> None:
-        inline = ("render_signature", "render_parameter", "_is_optional", "_get_optional_elem", "strip_module_prefixes")
+        inline = tuple(f.qualname for f in repo.module(ST).functions.values() if f.cls is None and f.qualname not in ("render_annotation", "get_imports_for_annotation"))
         super().__init__(repo, func, call_hook=self._hook, inline=inline)
         self.anno_text = anno_text or (lambda v: v.name.split(":")[-1] if isinstance(v, S) else "object")
         self.ri.dispatch_instances = True
+        self.ri.construct_instances = True  # a render method may build helper stub objects of its own
         self.inline_annotation = inline_annotation
         for f in repo.module(ST).functions.values():
             if f.cls is not None and f.qualname.split(".")[-1] in ("render",):
